@@ -961,6 +961,10 @@ func (m *Monitors) checkDeadLetters(r *Result, path string) {
 // checkPrune: maintenance may only remove dead rows.
 func (m *Monitors) checkPrune(r *Result) {
 	now := r.T
+	if strings.HasPrefix(r.Resp, "E:") {
+		// a maintenance job has no input to reject: a failing round reclaims nothing, now or in any later round
+		m.fire("C15", "job-failed", "maintenance job %s failed (%s %v): the rows it is responsible for are never reclaimed", r.Op.K, r.Resp, r.Err)
+	}
 	for id, b := range r.Before {
 		a := r.After[id]
 		if a == nil {
